@@ -1,6 +1,8 @@
 import Batteries.Tactic.Alias
 import GenlmModel.Proofs.AddEos
 import GenlmModel.Proofs.Norm
+import GenlmModel.Proofs.LimPrefix
+import GenlmModel.Proofs.LimNorm
 /-! # C20 — local normalisation; EOS wrapping -/
 namespace Genlm.Props.C20
 alias heads_sum_to_one := Genlm.ln_heads_sum_one_drop
@@ -10,4 +12,12 @@ alias zero_rules_irrelevant := Genlm.WN_dropZero
 alias eos_wrapping := Genlm.addEOS_spec
 alias eos_append := Genlm.addEOS_append
 alias eos_zero_otherwise := Genlm.addEOS_zero
+
+/-! ## at the limit (ℝ≥0∞): Z = the true total weights `ZL` (least solution), finite -/
+alias proportional_limit := Genlm.ln_WL_ZL_div
+alias heads_sum_to_one_limit := Genlm.ln_heads_sum_one_ZL
+/-- the locally normalised grammar has total weight one -/
+alias total_weight_one_limit := Genlm.ln_ZL_one
+alias eos_wrapping_limit := Genlm.addEOS_WL
+alias eos_append_limit := Genlm.addEOS_WL_append
 end Genlm.Props.C20
